@@ -960,3 +960,46 @@ SUBCHECKS = [
     SubCheck("measure", check_measure, _measure_case, nt_measure, quick=8000, thorough=140000),
     SubCheck("is_povm", check_is_povm, _ispovm_case, nt_ispovm, quick=3000, thorough=50000, shards=8),
 ]
+
+
+# ------------------------------------------------------------------------------------------
+# measure: the state's dtype must not matter (added after seeded change C19-t3 - post-state buffer allocated with the
+# dtype of the input state, so an integer or real-float state loses fractions / imaginary parts - was missed: every
+# generated state had the dtype of its operators)
+# ------------------------------------------------------------------------------------------
+@st.composite
+def _measure_dtype_case(draw):
+    d = draw(st.integers(2, 4))
+    return {
+        "d": d,
+        "n": draw(st.integers(1, 3)),
+        "state": draw(st.sampled_from(["int_projector", "int_diagonal_unnormalised_free", "float_real"])),
+        "pos": draw(st.integers(0, d - 1)),
+        "seeds": [draw(gen.SEED) for _ in range(2)],
+        "single": draw(st.booleans()),
+        "update": draw(st.sampled_from([True, True, False])),
+    }
+
+
+def check_measure_dtypes(case):
+    from toqito.measurement_ops.measure import measure
+
+    d, n = case["d"], case["n"]
+    if case["state"] == "float_real":
+        rho = np.array(gen.rand_density(case["seeds"][0], d, d, True), dtype=float)
+    else:
+        rho = np.zeros((d, d), dtype=np.int64)
+        rho[case["pos"], case["pos"]] = 1  # a basis projector: an exactly normalised integer-dtype density matrix
+    ks = _blocks(gen.rand_isometry(case["seeds"][1], n * d, d, False), n, d)  # complex operators, complete set
+    ref_rho = np.array(rho, dtype=complex)
+    if case["single"]:
+        out = measure(rho, ks[0], state_update=case["update"])
+        _cmp_outcome(out, ks[0], ref_rho, case["update"], False, d, 0)
+        return
+    out = measure(rho, list(ks), state_update=case["update"])
+    req(isinstance(out, list) and len(out) == n, f"measure: {len(out)} outcomes for {n} operators", "measure:form")
+    for i, (o, k) in enumerate(zip(out, ks)):
+        _cmp_outcome(o, k, ref_rho, case["update"], False, d, i)
+
+
+SUBCHECKS.append(SubCheck("measure_dtypes", check_measure_dtypes, _measure_dtype_case, lambda c: f"{c['state']},complex-operators" + (",update" if c["update"] else ""), quick=1500, thorough=25000, shards=4))
